@@ -3,7 +3,7 @@ CONSTANTS N = 7
           C = 2
           Props = {1, 2, 3}
           Endrs = {3, 4, 5, 6, 7}
-          VerifyCarried = FALSE
+          VerifyCarried = TRUE
           MaxMsgs = 5
           Alpha <- A7Mix
           EmitOn = TRUE
